@@ -133,12 +133,17 @@ def run(prop, tier, repo, outdir, seed):
 
 
 REPLAY_BINS = {
-    "C05": [("c05_stall", [])],
-    "C04": [("c04_empty", [])],
+    "C05": [("c05_stall", []), ("c_run", [], ["C05"])],
+    "C04": [("c04_empty", []), ("c_run", [], ["C04"])],
+    "C02": [("c_run", [], ["C02"])],
+    "C03": [("c_run", [], ["C03"])],
+    "C07": [("c_run", [], ["C07"])],
+    "C09": [("c_run", [], ["C09"])],
+    "C10": [("c_run", [], ["C10"])],
     "C18": [("c18_pops", ["--features", "hooks"])],
     "C13": [("c13_ranks", [])],
     "C11": [("c11_build", [])],
-    "C01": [("c11_build", [])],
+    "C01": [("c11_build", []), ("c_run", [], ["C01"])],
     "C06": [("c11_build", [])],
     "C12": [("c11_build", [])],
 }
@@ -151,8 +156,10 @@ def replay_search(prop, oid, v, repo, outdir):
         return None
     crate = _crate_for(repo, "replay", outdir)
     tdir = os.path.join(VERIF, "replay", "target") if repo == "/repo" else os.path.join(outdir, "replay_target")
-    for name, extra in bins:
-        cmd = ["cargo", "run", "--offline", "--quiet", "--target-dir", tdir, "--bin", name] + extra
+    for b in bins:
+        name, extra = b[0], b[1]
+        pargs = b[2] if len(b) > 2 else []
+        cmd = ["cargo", "run", "--offline", "--quiet", "--target-dir", tdir, "--bin", name] + extra + (["--"] + pargs if pargs else [])
         try:
             r = subprocess.run(cmd, cwd=crate, env=ENV, capture_output=True, text=True, timeout=900)
         except subprocess.TimeoutExpired:
